@@ -12,7 +12,7 @@ also = os.environ.get('ALSO', '').split()
 def sh(cmd, **kw):
     return subprocess.run(cmd, shell=True, stdout=subprocess.PIPE, stderr=subprocess.STDOUT, text=True, **kw)
 
-head = sh('git -C /repo rev-parse HEAD').stdout.strip()
+head = os.environ.get('HEADREV') or sh('git -C /repo rev-parse HEAD').stdout.strip()   # HEADREV: evaluate a change written for an earlier commit there
 sh('git -C %s checkout -q --detach %s' % (WT, head))
 sh('git -C %s checkout -- .' % WT)
 for k in ks:
